@@ -70,6 +70,18 @@ func verifKeys(b []byte) {
 	}
 }
 
+// json.Marshal(f()) must be pre + (the bytes json.Marshal gave for the pointer) + post
+func verifSame(what string, b []byte, f func() any, pre, post string) {
+	got, err := json.Marshal(f())
+	if err != nil {
+		ort.Note("X", what, strconv.Quote(err.Error()))
+		return
+	}
+	if want := pre + string(b) + post; string(got) != want {
+		ort.Note("X", what, strings.ReplaceAll(string(got)+"<>"+want, " ", "~"))
+	}
+}
+
 // *p = sentinel k of p's element type (the oracle lives in the package: every leaf can be assigned directly)
 func verifFill(p any, k int) {
 	e := reflect.ValueOf(p).Elem()
@@ -127,6 +139,27 @@ def add_exported_snake(rng, pkg, p=0.25):
     n = rng.choice(SNAKE_EXPORTED)
     t = ctorgen.T_basic(rng.choice(["int", "string", "bool"]))
     sd["fields"].insert(rng.randrange(0, len(sd["fields"]) + 1), ctorgen.fdecl([n], t))
+
+
+SET_NAMES = ["settings", "setup", "setPoint", "set_mode"]
+
+
+def add_set_names(rng, pkg, p=0.7):
+    """an unexported accessor field whose NAME begins with "set" on a struct that another struct embeds: its promoted
+    getter `Settings` / `Setup` ... must still be classified as a getter (shoot.Func.IsGetter looks at the signature,
+    not at the name); own fields of such names take the isGet/isSet path and do not exercise that classification"""
+    emb = sorted(ctorgen.embedded_struct_names(pkg))
+    if not emb or rng.random() >= p:
+        return
+    pick = rng.choice(emb)
+    sd = next(x for x in pkg["structs"] if x["name"] == pick)
+    used = set(n for x in pkg["structs"] for fd in x["fields"] for n in fd["names"])
+    n = rng.choice(SET_NAMES)
+    if n in used:
+        return
+    t = ctorgen.T_basic(rng.choice(["int", "string", "bool", "float64"]))
+    d = rng.choice(["//shoot: get", "//shoot: get;set", "//shoot: set;get", "// shoot: get"])
+    sd["fields"].insert(rng.randrange(0, len(sd["fields"]) + 1), ctorgen.fdecl([n], t, [d]))
 
 
 def json_tag_of(fd):
@@ -208,6 +241,7 @@ def gen_packages(run, n):
         fatal = getset and run.rng.random() < 0.03
         pkg = ctoracc.gen_acc_pkg(run.rng, name, p_exported_dir=0.5 if fatal else 0.0, **opts)
         add_exported_snake(run.rng, pkg)
+        add_set_names(run.rng, pkg)
         add_json_tags(run.rng, pkg)
         ctoracc.add_groups(run.rng, pkg, p=0.08)
         names = [sd["name"] for sd in pkg["structs"]]
@@ -258,6 +292,11 @@ def oracle_for_struct(pkg, sd, inst, key, has_json=True):
     lines.append('\t\tb, err := json.Marshal(v)')
     lines.append('\t\tif err != nil { ort.Note("X", "marshal", strconv.Quote(err.Error())); return }')
     lines.append('\t\tverifKeys(b)')
+    # the same value marshalled BY VALUE (not addressable) and held by value in a struct field and a map: a MarshalJSON on
+    # the pointer receiver is skipped there and encoding/json falls back to its default encoding
+    lines.append('\t\tverifSame("byvalue", b, func() any { return *v }, "", "")')
+    lines.append('\t\tverifSame("held_by_value", b, func() any { return struct{ X %s }{*v} }, `{"X":`, "}")' % T)
+    lines.append('\t\tverifSame("map_value", b, func() any { return map[string]%s{"k": *v} }, `{"k":`, "}")' % T)
     lines.append('\t\tw := verifNew(New%s, 50).(*%s)' % (T, T))
     for i, (p, t) in enumerate(lf):
         if not has_json and "map[" in ctorgen.go_type(t):
@@ -422,7 +461,9 @@ def replay_record(pkg, obs, verdict, modname):
             "observed": [obs[(pkg["name"], t)] for t in pkg["order"] if (pkg["name"], t) in obs],
             "verdict": verdict,
             "how": "render the sources into a module that replaces github.com/lopolopen/shoot by the tree under test, run the "
-                   "command in the package directory, go build; v := NewT(distinct values); json.Marshal(v): compare the member "
+                   "command in the package directory, go build; v := NewT(distinct values); json.Marshal(v) -- and json.Marshal(*v), "
+                   "struct{ X T }{*v}, map[string]T{\"k\": *v} must give the same bytes (notes byvalue / held_by_value / "
+                   "map_value otherwise) --: compare the member "
                    "names and values with the fields (explicit json tag, else the -tagcase transform of the name; getter-less "
                    "fields are zero); json.Unmarshal of that JSON into another NewT(...) value: exported fields and fields "
                    "with both accessors equal v's (expected: coq/Model/CtorJson.v)"}
@@ -786,6 +827,9 @@ def main(run):
             bump("explicit_tags", sum(1 for fd in sd["fields"] if json_tag_of(fd)))
             bump("dash_tags", sum(1 for fd in sd["fields"] if json_tag_of(fd) == "-"))
             bump("omitempty_tags", sum(1 for fd in sd["fields"] if "omitempty" in json_tag_of(fd)))
+            bump("set_prefixed_promoted_keys", sum(1 for kk, _ in o["keys"] if kk.lower().replace("_", "") in
+                                                   ("settings", "setup", "setpoint", "setmode")
+                                                   and not any(n in SET_NAMES for fd in sd["fields"] for n in fd["names"])))
             bump("exported_snake_fields", sum(1 for fd in sd["fields"] for n in fd["names"] if n[:1].isupper() and "_" in n))
             bump("promoted_keys", max(0, len(o["keys"]) - sum(len(fd["names"]) for fd in sd["fields"] if fd["names"])))
             bump("fields_changed_by_unmarshal", sum(1 for (p, a), (_, b) in zip(o["after"], o["before"]) if a != b))
@@ -802,7 +846,7 @@ def main(run):
                         "source": "".join(ctoracc.render_go(pkg, "c11mod").values())[:1500],
                         "observed": [obs[(pkg["name"], t)] for t in pkg["order"][:2] if (pkg["name"], t) in obs],
                         "verdict": verdicts.get(i, 0)})
-    vd, why3 = {}, {}
+    vd, why3, why3_samples = {}, {}, []
     v_eq_w = leaves_total = 0
     for i, pkg in enumerate(pkgs):
         v = verdicts.get(i, 0)
@@ -813,6 +857,10 @@ def main(run):
                       "python_precheck_outside_guard" if "out" in pkg["classes"] else
                       "struct_not_observed" if unobs else "coq_guard_only")
             why3[reason] = why3.get(reason, 0) + 1
+            if reason in ("struct_not_observed", "coq_guard_only") and len(why3_samples) < 6:
+                why3_samples.append({"package": pkg["name"], "reason": reason, "cmd": "shoot " + " ".join(pkg["args"]),
+                                     "source": "".join(ctoracc.render_go(pkg, "c11mod").values())[:1200],
+                                     "type_errors": (pkg.get("type_errors") or [])[:3]})
         for t in pkg["order"]:
             o = obs.get((pkg["name"], t))
             if o and o["status"] == 0:
@@ -828,7 +876,9 @@ def main(run):
                  "lower/camel/snake/acronym/ALLCAPS/exported) with explicit json tags on ~20%% of the single-name fields; "
                  "`shoot new [-getset on 85%%] -json -tagcase=<uniform over pascal|camel|lower|upper> -type=<all or all but "
                  "one, declaration order>`.  Per selected struct: MarshalJSON/UnmarshalJSON declared?, the shadow struct's "
-                 "fields (name, type, tag), json.Marshal(NewT(sentinels)) members in order with raw JSON values, raw JSON of "
+                 "fields (name, type, tag), json.Marshal(NewT(sentinels)) members in order with raw JSON values (the same value "
+                 "marshalled BY VALUE, as a struct field held by value and as a map value must give the same bytes), an "
+                 "accessor field named set... on an embedded struct in ~1 of 2 packages with embedding, raw JSON of "
                  "every leaf and of every leaf type's zero value, every leaf of a second NewT value before and after "
                  "json.Unmarshal.  evaluations = static case + marshal + unmarshal per struct.  non-trivial = distinct "
                  "(struct[, package when it embeds], tagcase, getset) with JSON code in agreeing packages inside the guard"
@@ -839,7 +889,7 @@ def main(run):
         "structs_observed_in_agreeing_packages": nstructs,
         "structs_with_json_code": njson, "structs_marshalled_and_unmarshalled": nmarsh,
         "package_verdicts": {str(k): v for k, v in sorted(vd.items())},
-        "verdict_3_reasons": why3,
+        "verdict_3_reasons": why3, "verdict_3_samples_not_explained_by_precheck": why3_samples,
         "verdict_2_packages_incl_alignment_failures": sum(1 for v in verdicts.values() if v == 2),
         "leaves_compared": leaves_total, "leaves_with_v_eq_w": v_eq_w,
         "feature_counts": feat,
